@@ -602,7 +602,9 @@ partial def anteLoop (stdin : IO.FS.Stream) (a : AState) : IO Unit := do
       let ps := (((l.drop 10).toString.splitOn ",").filter (· != "")).map (fun p =>
         let kv := p.splitOn ":"
         ((kv.getD 0 "").toList, (decTok (kv.getD 1 "0")).toNat))
-      let a' : AState := { a with prices := ps }
+      -- an empty list ("-") is stored as such; whoever reads the parameters then gets the default prices in its place - and the
+      -- other parameters as they are stored
+      let a' : AState := { a with prices := if ps.isEmpty || l.trimAscii.toString == "setprices -" then Facts.defaultGasPrices else ps }
       IO.println "< ok"
       for d in dumpAnte a' do
         IO.println ("| " ++ d)
